@@ -1,20 +1,38 @@
 -------------------------- MODULE Gen_MockExchange --------------------------
 (* Scenario generation for the conformance harness (spec -> impl): request    *)
 (* sequences of MockExchange printed as JSON, one line per behaviour:         *)
-(*   {"init": {fee, lat, bal, open, up}, "evs": [ {req, out, why, id, filled} ]} *)
-(* (`up` = FALSE: the exchange task has ended before the first request)      *)
+(*   {"init": {fee, lat, bal, open, up}, "evs": [ {req, out, why, id, filled} ], "bq": [0|1]} *)
+(* (`up` = FALSE: the exchange task has ended before the first request;      *)
+(*  `bq[i]` = 1: request i is QUEUED TOGETHER with request i-1 - sent before  *)
+(*  the answer to it is awaited: maximal runs form a burst of 2..MaxBurst     *)
+(*  requests.  For the specification a burst is just its requests in queue    *)
+(*  order - the steps are the ordinary ones - only the harness observes it    *)
+(*  differently: one look at ledger and notifications after the whole burst)  *)
 (* The harness replays `init` + the `req` of every element into the real     *)
 (* exchange; what the implementation answers is judged by Trace_MockExchange *)
 (* (the `out`/`id` printed here are only what the specification expects).     *)
 (*  GSpec  (exhaustive): every initial account x every request - one          *)
 (*         implementation test per arm x balance situation.                   *)
 (*  GSpecR (simulation): long random request sequences; the request is drawn  *)
-(*         with RandomElement so that a step has a single successor.          *)
+(*         with RandomElement so that a step has a single successor; every    *)
+(*         request joins the one before it with probability 1/3.              *)
+(*  GSpecP (exhaustive): every PAIR of requests queued together, on accounts  *)
+(*         whose balances cover none / one / both of two orders - one         *)
+(*         implementation test per pair of arms x balance situation.          *)
 EXTENDS MockExchange, Json
 CONSTANTS MaxLen, OrderSubsets
-VARIABLES init, hist, done
+VARIABLES init, hist, bq, done
 
-gvars == <<vars, init, hist, done>>
+gvars == <<vars, init, hist, bq, done>>
+
+MaxBurst == 4
+\* the length of the burst the latest request belongs to
+RunLen(b) == IF Len(b) = 0 THEN 0
+             ELSE 1 + Cardinality({k \in 1..Len(b) : \A i \in (Len(b) - k + 1)..Len(b) : b[i] = 1})
+\* may request r be queued together with the one before it?  (the end of the exchange task is an
+\* event of the harness, not a request)
+MayJoin(r) == /\ Len(hist) > 0 /\ r.op # "kill" /\ hist[Len(hist)].req.op # "kill"
+              /\ RunLen(bq) < MaxBurst
 
 Max(S) == CHOOSE x \in S : \A y \in S : y <= x
 
@@ -32,12 +50,14 @@ GInit == /\ fee \in FeePcts
          /\ res = NoRes
          /\ init = [fee |-> fee, lat |-> lat, bal |-> bal, open |-> SetToSeq(orders), up |-> up]
          /\ hist = <<>>
+         /\ bq = <<>>
          /\ done = FALSE
 
 GStep == /\ ~done /\ Len(hist) < MaxLen
          /\ \E r \in Requests \cup {KillReq} : \E id \in FreshIds : \E tt \in ClockChoices(r) :
                Serve(r, id, tt, "offline")
          /\ hist' = Append(hist, last')
+         /\ bq' = Append(bq, 0)
          /\ UNCHANGED <<init, done>>
 
 \* most requests are market orders on listed instruments (the arms with a ledger effect); the
@@ -53,17 +73,45 @@ ReqClass(c) == IF c <= 22 THEN {r \in OpenReqs : Market(r) /\ Listed(r)}
                ELSE {KillReq}
 
 GStepR == /\ ~done /\ Len(hist) < MaxLen
-          /\ \E c \in {RandomElement(1..40)} : \E r \in {RandomElement(ReqClass(c))} :
-                \E id \in FreshIds : \E tt \in ClockChoices(r) : Serve(r, id, tt, "offline")
+          /\ \E c \in {RandomElement(1..40)} : \E r \in {RandomElement(ReqClass(c))} : \E b \in {RandomElement(1..3)} :
+                /\ \E id \in FreshIds : \E tt \in ClockChoices(r) : Serve(r, id, tt, "offline")
+                /\ bq' = Append(bq, IF b = 1 /\ MayJoin(r) THEN 1 ELSE 0)
           /\ hist' = Append(hist, last')
+          /\ UNCHANGED <<init, done>>
+
+\* --- pairs: two requests queued together ---
+\* every market order and every query; one limit order and one cancel stand for the others (their
+\* answer does not depend on the ledger)
+PairReqs == {r \in Requests :
+               /\ (r.op = "open" /\ ~Market(r)) => (r.side = "buy" /\ r.instr = "btc_usdt" /\ r.p = Max(Prices) /\ r.q = Max(Qtys))
+               /\ (r.op = "cancel") => r.instr = "btc_usdt"}
+
+GInitP == /\ fee \in FeePcts
+          /\ lat \in Lats
+          /\ bal \in {[a \in Assets |-> [total |-> v, free |-> v]] : v \in BalInit}
+          /\ orders = {OpenOrder(c) : c \in OpenCids}
+          /\ up = TRUE
+          /\ nextId = 0 /\ now = 0 /\ trades = <<>> /\ notif = <<>>
+          /\ last = Resp(NoReq, "init", "-", -1, 0)
+          /\ res = NoRes
+          /\ init = [fee |-> fee, lat |-> lat, bal |-> bal, open |-> SetToSeq(orders), up |-> up]
+          /\ hist = <<>>
+          /\ bq = <<>>
+          /\ done = FALSE
+
+GStepP == /\ ~done /\ Len(hist) < MaxLen
+          /\ \E r \in PairReqs : \E id \in FreshIds : \E tt \in ClockChoices(r) : Serve(r, id, tt, "offline")
+          /\ hist' = Append(hist, last')
+          /\ bq' = Append(bq, IF Len(hist) = 0 THEN 0 ELSE 1)
           /\ UNCHANGED <<init, done>>
 
 GFinish == /\ ~done /\ Len(hist) = MaxLen
            /\ done' = TRUE
-           /\ UNCHANGED <<vars, init, hist>>
+           /\ UNCHANGED <<vars, init, hist, bq>>
 
 GSpec  == GInit /\ [][GStep \/ GFinish]_gvars
 GSpecR == GInit /\ [][GStepR \/ GFinish]_gvars
+GSpecP == GInitP /\ [][GStepP \/ GFinish]_gvars
 
-Emit == done => PrintT(<<"SCN", ToJson([init |-> init, evs |-> hist])>>)
+Emit == done => PrintT(<<"SCN", ToJson([init |-> init, evs |-> hist, bq |-> bq])>>)
 =============================================================================
